@@ -21,8 +21,10 @@ impl From<&str> for Cap { fn from(s: &str) -> Cap { Cap(s.to_string()) } }
 impl core::fmt::Display for Cap { fn fmt(&self, f: &mut core::fmt::Formatter) -> core::fmt::Result { core::fmt::Display::fmt(self.0.as_str(), f) } }
 impl AsRef<str> for Cap { fn as_ref(&self) -> &str { self.0.as_str() } }
 #[derive(Debug, Clone, PartialEq, Eq)] pub struct PErr(pub String);
-pub static PERR_CALLS: core::sync::atomic::AtomicUsize = core::sync::atomic::AtomicUsize::new(0);
-pub fn perr(s: &str) -> PErr { PERR_CALLS.fetch_add(1, core::sync::atomic::Ordering::Relaxed); PErr(s.to_string()) }
+// call counter for C18 ("f is not invoked for inputs that match"); a plain static: an AtomicUsize makes Kani 0.68 report spurious dealloc checks
+#[allow(static_mut_refs)] static mut PERR_CALLS_RAW: usize = 0;
+pub fn perr_calls() -> usize { unsafe { PERR_CALLS_RAW } }
+pub fn perr(s: &str) -> PErr { unsafe { PERR_CALLS_RAW = PERR_CALLS_RAW.wrapping_add(1); } PErr(s.to_string()) }
 pub fn dw_u8() -> u8 { 5 }
 pub fn dw_i32() -> i32 { -3 }
 pub fn dw_tag() -> Tag { Tag(9) }
